@@ -513,6 +513,69 @@ def backwardInduction (d : DDP α) (T : Nat) (vTerm : Option (List α)) :
 
 end ddp
 
+/-! ### argument handling of `__init__`: which formulation, or which `ValueError`
+
+What the constructor decides from the *shapes* of its arguments alone (lines 299-349), before
+any entry of `R`, `Q`, `s_indices`, `a_indices` is read: a sparse or 2-dimensional `Q` selects
+the state-action-pair formulation, a 3-dimensional `Q` the product formulation; every
+inconsistency is a `ValueError` with its own message. -/
+
+/-- the constructor's arguments as far as the shape stage sees them -/
+structure RawArgs where
+  rShape : List Nat          -- `np.asarray(R).shape`
+  qShape : List Nat          -- `Q.shape`
+  qSparse : Bool             -- `sp.issparse(Q)` (then `Q` is 2-dimensional)
+  sLen : Option Nat          -- `len(s_indices)`, `none` = not supplied
+  aLen : Option Nat
+deriving Repr, DecidableEq
+
+/-- the `ValueError`s of the shape stage, in the order the code tests them -/
+inductive ShapeErr where
+  | qDim        -- 'Q must be 2- or 3-dimensional'
+  | rDim        -- 'R must be 1- or 2-dimensional'
+  | dimension   -- 'dimensions of R and Q must be either 1 and 2, or 2 and 3'
+  | shape       -- 'shapes of R and Q must be either (n, m) and (n, m, n), or (L,) and (L, n)'
+  | sMissing    -- 's_indices must be supplied'
+  | aMissing    -- 'a_indices must be supplied'
+  | length      -- 'length of s_indices and a_indices must be equal to the number of state-action pairs'
+deriving Repr, DecidableEq
+
+instance : ToString ShapeErr where
+  toString
+    | .qDim => "ValueError:qdim"
+    | .rDim => "ValueError:rdim"
+    | .dimension => "ValueError:dimension"
+    | .shape => "ValueError:shape"
+    | .sMissing => "ValueError:smissing"
+    | .aMissing => "ValueError:amissing"
+    | .length => "ValueError:length"
+
+/-- the formulation selected: `sa L n sparse` (`num_sa_pairs, num_states = Q.shape`) or `prod n m` -/
+inductive Form where
+  | sa (L n : Nat) (sparse : Bool)
+  | prod (n m : Nat)
+deriving Repr, DecidableEq
+
+def dispatch (x : RawArgs) : Except ShapeErr Form :=
+  if !x.qSparse && x.qShape.length != 2 && x.qShape.length != 3 then .error .qDim
+  else if x.rShape.length != 1 && x.rShape.length != 2 then .error .rDim
+  else if x.qSparse || x.qShape.length == 2 then
+    match x.qShape with
+    | [L, n] =>
+      if x.rShape.length != 1 then .error .dimension
+      else if x.rShape != [L] then .error .shape
+      else match x.sLen with
+        | none => .error .sMissing
+        | some sl =>
+          match x.aLen with
+          | none => .error .aMissing
+          | some al => if sl = L ∧ al = L then .ok (.sa L n x.qSparse) else .error .length
+    | _ => .error .qDim      -- a sparse matrix is always 2-dimensional
+  else
+    match x.rShape with
+    | [n, m] => if x.qShape = [n, m, n] then .ok (.prod n m) else .error .shape
+    | _ => .error .dimension
+
 /-! ### the object as a state machine: attribute reassignment, in-place edits, queries
 
 `DiscreteDP` keeps `R`, `Q`, `beta` as public attributes. `Op` lists what a caller can do to
@@ -723,8 +786,22 @@ def runOp (op : String) (r : List String) (d : DDP Rat) : String :=
     | .prod _ => "bad-op"
   | _ => "bad-op"
 
+def showForm : Form → String
+  | .sa L n sp => s!"sa|L={L}|n={n}|sparse={if sp then 1 else 0}"
+  | .prod n m => s!"prod|n={n}|m={m}"
+
+def parseLenOpt? (s : String) : Option (Option Nat) :=
+  if s = "none" then some none else s.toNat?.map some
+
 def handle (toks : List String) : String :=
   match toks with
+  | "dispatch" :: r =>
+    match kvNats r "r", kvNats r "q", kvNat r "sparse", (kv r "s").bind parseLenOpt?, (kv r "a").bind parseLenOpt? with
+    | some rs, some qs, some sp, some sl, some al =>
+      if sp ≤ 1 then
+        showExcept showForm (dispatch { rShape := rs, qShape := qs, qSparse := sp == 1, sLen := sl, aLen := al })
+      else "bad-op"
+    | _, _, _, _, _ => "bad-op"
   | "aindptr" :: r =>
     match kvNat r "n", kvNats r "s" with
     | some n, some s => showList toString (generateAIndptr n s)
